@@ -229,6 +229,17 @@ pub fn replay_entry(e: &Value) -> Result<String, String> {
                     if let Some(err) = suiron::load_kb_from_file(&mut kb, &path) { return Err(err); }
                     let _ = suiron::load_kb_from_file(&mut suiron::KnowledgeBase::new(), "/nonexistent/file.txt");
                     let _ = suiron::format_kb(&kb);
+                    // a second, small file whose last rule ends the file in a different way each time: a digit right before
+                    // the final period with nothing after it, a decimal number before it, blanks and empty lines after it
+                    let (tail, rules) = [("zz_first(a).\nzz_last($X) :- $X = 7.", 2usize), ("zz_pi(3.14).\nzz_last($X) :- $X = 3.5.", 2), ("zz_n($X) :- $X == 42.  \n\n", 1), ("zz_a(1). zz_b(2).\nzz_c(1,\n  3).", 3)][text.len() % 4];
+                    let path2 = format!("{}.tail", path);
+                    if std::fs::write(&path2, tail).is_ok() {
+                        let mut kb2 = suiron::KnowledgeBase::new();
+                        if let Some(err) = suiron::load_kb_from_file(&mut kb2, &path2) { return Err(format!("{:?}: {}", tail, err)); }
+                        let n: usize = kb2.values().map(|v| v.len()).sum();
+                        if n != rules { return Err(format!("{:?}: {} rules loaded, expected {}", tail, n, rules)); }
+                        let _ = std::fs::remove_file(&path2);
+                    }
                     let sn = suiron::make_base_node(Rc::new(query_goal(&p)), &kb);
                     let mut n = 0;
                     while suiron::next_solution(Rc::clone(&sn)).is_some() { n += 1; if n > 20 { break; } }
